@@ -118,7 +118,9 @@ var g04TagPrefixes = []string{"", "abc ", "x>", "x >", "x'>", "x\">", "x`>", "'>
 	"<!--x-->", "<!-- x --!>", "<![CDATA[x]]>", "<%x%>", "<?x?>", "</>", "<b/>", "<b c=d/>", "<b c='d'/>", "<b c=d>t</b>", "<!x>", "x<!---->", "<b c=\"d\"e=f>", "&lt;", "<b\x00c>", "<b c=d\x00>", "<b><![cdata[></b>", "<![cDaTa[x>", "<![CDATA[x]]><![cdata[>",
 	// polyglot openers: the unquoted reading is swallowed by an unterminated comment,
 	// <% block or CDATA section, the quoted readings break out behind the quote
-	"<!--\">", "<!--'>", "<!--`>", "<!--x\" >", "<%\">", "<%'>", "<%x`>", "<![CDATA[\">", "<![CDATA['>", "<![CDATA[x`>", "<!--x' y\">"}
+	"<!--\">", "<!--'>", "<!--`>", "<!--x\" >", "<%\">", "<%'>", "<%x`>", "<![CDATA[\">", "<![CDATA['>", "<![CDATA[x`>", "<!--x' y\">",
+	// the same without any quote: only the unquoted reading gets past the opener
+	"<!-->", "x <!-- y >", "<%>", "<![CDATA[>", "<!--x>", "<% x >", "<!--->", "<!-- - >", "a<![CDATA[ b > ", "<%-- x >"}
 
 type g04AttrPrefix struct {
 	text   string
